@@ -8,6 +8,8 @@ import (
 	"fmt"
 	"net"
 	"os"
+	"strings"
+	"sync"
 	"testing"
 	"time"
 
@@ -41,14 +43,19 @@ func wildPort() (int, net.Listener) {
 }
 
 func TestVfC03WildcardUDP(t *testing.T) {
-	st := vfkit.Stats("TestVfC03WildcardUDP", "UDP listeners on the wildcard address (forms :P, 0.0.0.0:P, [::]:P) with udp.multi_routes and threads in {1,2,4}; 1-6 fresh client sockets (connected, or unconnected and recording the source of what comes back; bound to an address of the block or left to the kernel) each ask 1-3 questions of one drawn local address (127.0.0.1, addresses of the private block); oracle: every query gets exactly one response with its ID and question on the socket it was sent from, coming from the address that was asked; non-trivial = threads >= 2 and an address other than 127.0.0.1")
+	st := vfkit.Stats("TestVfC03WildcardUDP", "UDP listeners on the wildcard address (forms :P, 0.0.0.0:P, [::]:P) with udp.multi_routes and threads in {1,2,4}; 1-6 fresh client sockets (connected, or unconnected and recording the source of what comes back; bound to an address of the block or left to the kernel) each ask 1-3 questions of a local address (127.0.0.1, addresses of the private block, ::1 on the dual-stack forms; one address per case or one per socket), all in flight together with drawn gaps, the upstream answering at once or after 20-400 ms; oracle: every query gets exactly one response with its ID and question on the socket it was sent from, coming from the address that was asked; non-trivial = threads >= 2 and an IPv4 address other than 127.0.0.1")
 	defer vfkit.Flush()
 	block := NextIPBlock()
+	var delays sync.Map // first label -> delay of the upstream reply
 	up, err := StartUpstream("udp", "up", block+"2", 0, nil, func(q *UpQuery) UpAction {
 		if q.Msg.Err != nil || len(q.Msg.Q) != 1 {
 			return UpAction{}
 		}
-		return UpAction{Reply: EncodeMsg(KeyedAnswer(q.Msg, "c03w", 0, 60, 0))}
+		a := UpAction{Reply: EncodeMsg(KeyedAnswer(q.Msg, "c03w", 0, 60, 0))}
+		if d, ok := delays.Load(strings.ToLower(string(q.Msg.Q[0].Name[0]))); ok {
+			a.Delay = d.(time.Duration)
+		}
+		return a
 	})
 	if err != nil {
 		t.Fatal(err)
@@ -90,103 +97,149 @@ func TestVfC03WildcardUDP(t *testing.T) {
 	rapid.Check(t, func(t *rapid.T) {
 		caseNo++
 		P := proxies[rapid.IntRange(0, len(proxies)-1).Draw(t, "proxy")]
-		dstIP := "127.0.0.1"
-		if rapid.IntRange(0, 4).Draw(t, "otherAddress") > 0 {
-			dstIP = block + itoa(rapid.IntRange(20, 250).Draw(t, "host"))
+		genDst := func() (string, bool) {
+			if P.form != "0.0.0.0:%d" && rapid.IntRange(0, 5).Draw(t, "askV6") == 0 {
+				return "::1", true // the dual-stack forms serve the host's IPv6 address too
+			}
+			if rapid.IntRange(0, 4).Draw(t, "otherAddress") > 0 {
+				return block + itoa(rapid.IntRange(20, 250).Draw(t, "host")), false
+			}
+			return "127.0.0.1", false
 		}
-		dst := &net.UDPAddr{IP: net.ParseIP(dstIP), Port: P.port}
 		nSock := rapid.IntRange(1, 6).Draw(t, "sockets")
-		desc := fmt.Sprintf("listener %s threads=%d multi_routes, asked address %s", fmt.Sprintf(P.form, P.port), P.threads, dst)
+		sameDst := rapid.Bool().Draw(t, "allAskTheSameAddress")
+		firstDst, firstV6 := genDst()
 		type sent struct {
 			id   uint16
 			name vfkit.Name
 		}
+		type sock struct {
+			c         *net.UDPConn
+			dst       *net.UDPAddr
+			v6        bool
+			connected bool
+			qs        []sent
+		}
+		var socks []*sock
+		defer func() {
+			for _, k := range socks {
+				k.c.Close()
+			}
+		}()
+		nontrivial := false
+		dsts := map[string]bool{}
 		for si := 0; si < nSock; si++ {
-			connected := rapid.Bool().Draw(t, "connected")
+			k := &sock{connected: rapid.Bool().Draw(t, "connected")}
+			dstIP, v6 := firstDst, firstV6
+			if !sameDst && si > 0 {
+				dstIP, v6 = genDst()
+			}
+			k.v6, k.dst = v6, &net.UDPAddr{IP: net.ParseIP(dstIP), Port: P.port}
+			dsts[dstIP] = true
+			if P.threads >= 2 && dstIP != "127.0.0.1" && !v6 {
+				nontrivial = true
+			}
 			var laddr *net.UDPAddr
-			if rapid.Bool().Draw(t, "boundSource") {
+			if rapid.Bool().Draw(t, "boundSource") && !v6 {
 				laddr = &net.UDPAddr{IP: net.ParseIP(block + "9")}
 			}
-			var c *net.UDPConn
 			var err error
-			if connected {
-				c, err = net.DialUDP("udp", laddr, dst)
-			} else {
+			switch {
+			case k.connected:
+				k.c, err = net.DialUDP("udp", laddr, k.dst)
+			case v6:
+				k.c, err = net.ListenUDP("udp6", &net.UDPAddr{IP: net.IPv6zero})
+			default:
 				if laddr == nil {
 					laddr = &net.UDPAddr{IP: net.IPv4zero}
 				}
-				c, err = net.ListenUDP("udp4", laddr)
+				k.c, err = net.ListenUDP("udp4", laddr)
 			}
 			if err != nil {
 				t.Fatalf("client socket: %v", err)
 			}
-			nq := rapid.IntRange(1, 3).Draw(t, "queries")
-			var qs []sent
-			for qi := 0; qi < nq; qi++ {
-				s := sent{id: uint16(caseNo*32 + si*4 + qi), name: vfkit.Name{[]byte(fmt.Sprintf("w%ds%dq%dx%d", caseNo, si, qi, os.Getpid())), []byte("c03w"), []byte("test")}}
-				qs = append(qs, s)
-				w := Query(s.id, s.name, 1, 1, false)
-				if connected {
-					_, err = c.Write(w)
+			socks = append(socks, k)
+			for qi, nq := 0, rapid.IntRange(1, 3).Draw(t, "queries"); qi < nq; qi++ {
+				label := fmt.Sprintf("w%ds%dq%dx%d", caseNo, si, qi, os.Getpid())
+				// the upstream answers at once or late: a query waits in the proxy while later datagrams (to other
+				// addresses) pass through the same reader
+				if d := rapid.SampledFrom([]int{0, 0, 20, 150, 400}).Draw(t, "upstreamDelayMs"); d > 0 {
+					delays.Store(label, time.Duration(d)*time.Millisecond)
+					defer delays.Delete(label)
+				}
+				k.qs = append(k.qs, sent{id: uint16(caseNo*32 + si*4 + qi), name: vfkit.Name{[]byte(label), []byte("c03w"), []byte("test")}})
+			}
+		}
+		desc := fmt.Sprintf("listener %s threads=%d multi_routes, %d client sockets asking %d local addresses", fmt.Sprintf(P.form, P.port), P.threads, nSock, len(dsts))
+		// all queries go out before anything is collected, socket by socket in rounds, with drawn gaps
+		for round := 0; round < 3; round++ {
+			for _, k := range socks {
+				if round >= len(k.qs) {
+					continue
+				}
+				w := Query(k.qs[round].id, k.qs[round].name, 1, 1, false)
+				var err error
+				if k.connected {
+					_, err = k.c.Write(w)
 				} else {
-					_, err = c.WriteToUDP(w, dst)
+					_, err = k.c.WriteToUDP(w, k.dst)
 				}
 				if err != nil {
-					c.Close()
 					t.Fatalf("send: %v", err)
 				}
+				if g := rapid.SampledFrom([]int{0, 0, 1, 5}).Draw(t, "gapMs"); g > 0 {
+					time.Sleep(time.Duration(g) * time.Millisecond)
+				}
 			}
+		}
+		deadline := time.Now().Add(8 * time.Second)
+		buf := make([]byte, 4096)
+		for _, k := range socks {
 			got := map[uint16]int{}
-			buf := make([]byte, 4096)
-			deadline := time.Now().Add(8 * time.Second)
-			for len(got) < nq {
-				c.SetReadDeadline(deadline)
-				n, from, err := c.ReadFromUDP(buf)
+			for len(got) < len(k.qs) {
+				k.c.SetReadDeadline(deadline)
+				n, from, err := k.c.ReadFromUDP(buf)
 				if err != nil {
 					break
 				}
 				r := newResp(buf[:n])
 				if !r.Msg.Clean() {
-					c.Close()
 					t.Fatalf("malformed response; %s", desc)
 				}
 				var q *sent
-				for i := range qs {
-					if qs[i].id == r.Msg.ID {
-						q = &qs[i]
+				for i := range k.qs {
+					if k.qs[i].id == r.Msg.ID {
+						q = &k.qs[i]
 					}
 				}
 				if q == nil || len(r.Msg.Q) != 1 || !r.Msg.Q[0].Name.EqualFold(q.name) || !r.Msg.Has(vfkit.BitQR) || r.Msg.Rcode() != 0 {
-					c.Close()
-					t.Fatalf("response %s matches no query of this socket; %s", r.Msg.Msg.String(), desc)
+					t.Fatalf("response %s matches no query of the socket it arrived on; %s", r.Msg.Msg.String(), desc)
 				}
-				if !from.IP.Equal(dst.IP) || from.Port != dst.Port {
-					c.Close()
-					t.Fatalf("the response to a query sent to %s came from %s (a connected client never sees it); %s", dst, from, desc)
+				if !from.IP.Equal(k.dst.IP) || from.Port != k.dst.Port {
+					t.Fatalf("the response to a query sent to %s came from %s (a connected client never sees it); %s", k.dst, from, desc)
 				}
 				got[r.Msg.ID]++
 				if got[r.Msg.ID] > 1 {
-					c.Close()
 					t.Fatalf("two responses to query ID %d; %s", r.Msg.ID, desc)
 				}
 			}
-			if len(got) < nq {
-				c.Close()
-				t.Fatalf("%d of %d queries of a %s client socket got no response within 8 s; %s\n%s", nq-len(got), nq, map[bool]string{true: "connected", false: "unconnected"}[connected], desc, tail(P.p.Stderr(), 400))
+			if len(got) < len(k.qs) {
+				t.Fatalf("%d of %d queries of a %s client socket that asked %s got no response within 8 s; %s\n%s", len(k.qs)-len(got), len(k.qs), map[bool]string{true: "connected", false: "unconnected"}[k.connected], k.dst, desc, tail(P.p.Stderr(), 400))
 			}
-			// a duplicate would follow shortly
-			c.SetReadDeadline(time.Now().Add(3 * time.Millisecond))
-			if n, _, err := c.ReadFromUDP(buf); err == nil {
-				c.Close()
+		}
+		// a duplicate would follow shortly
+		time.Sleep(3 * time.Millisecond)
+		for _, k := range socks {
+			k.c.SetReadDeadline(time.Now().Add(time.Millisecond))
+			if n, _, err := k.c.ReadFromUDP(buf); err == nil {
 				t.Fatalf("an extra datagram of %d octets after every query was answered; %s", n, desc)
 			}
-			c.Close()
 		}
 		if P.p.Exited() {
 			t.Fatalf("proxy exited; %s\n%s", desc, tail(P.p.Stderr(), 800))
 		}
-		st.Case(vfkit.Fingerprint(caseNo, os.Getpid()), P.threads >= 2 && dstIP != "127.0.0.1", []string{fmt.Sprintf("threads=%d", P.threads), "form=" + P.form, map[bool]string{true: "primary-address", false: "other-address"}[dstIP == "127.0.0.1"]}, func() any {
-			return map[string]any{"listener": fmt.Sprintf(P.form, P.port), "threads": P.threads, "asked": dst.String(), "sockets": nSock}
+		st.Case(vfkit.Fingerprint(caseNo, os.Getpid()), nontrivial, []string{fmt.Sprintf("threads=%d", P.threads), "form=" + P.form, fmt.Sprintf("addresses-asked=%d", len(dsts))}, func() any {
+			return map[string]any{"listener": fmt.Sprintf(P.form, P.port), "threads": P.threads, "sockets": nSock, "addresses": len(dsts)}
 		})
 	})
 }
